@@ -56,6 +56,7 @@ var c02Materialisers = map[string]string{
 
 func runC02(c *core.Ctx) {
 	const pkg = "data/trie"
+	c02ChildScans(c)
 	type ft struct{ typ, field string }
 	content := map[*types.Var]string{}
 	for _, f := range []ft{{"leafNode", "Key"}, {"leafNode", "Value"}, {"extensionNode", "Key"}, {"extensionNode", "child"},
@@ -473,4 +474,78 @@ func c02CanonicalShape(c *core.Ctx) {
 	}
 	c.Floor("C02/extension-child-is-branch", 8)
 	c.Floor("C02/no-empty-key-extension", 3)
+}
+
+// c02ChildScans: a loop that inspects the children of a branch node by index covers all of its
+// slots (slot 16 holds the key that ends at the branch): its bound is the array length / len of
+// the slice, never a smaller constant.
+func c02ChildScans(c *core.Ctx) {
+	const pkg = "data/trie"
+	n := 0
+	for _, fn := range c.P.FuncsOfPkg(pkg) {
+		k := 0
+		for _, l := range core.Loops(fn) {
+			// induction variable and constant bound at the header
+			var bound *ssa.BinOp
+			for _, in := range l.Header.Instrs {
+				if b, ok := in.(*ssa.BinOp); ok && b.Op == token.LSS {
+					bound = b
+				}
+			}
+			if bound == nil {
+				continue
+			}
+			// does the body index a branch node's children with the loop counter?
+			arrLen := int64(-1)
+			var slices []ssa.Value
+			for b := range l.Body {
+				for _, in := range b.Instrs {
+					ia, ok := in.(*ssa.IndexAddr)
+					if !ok || !core.BackwardReachPure(ia.Index)[bound.X] && ia.Index != bound.X {
+						continue
+					}
+					if fa, isFA := ia.X.(*ssa.FieldAddr); isFA && core.FieldOfAddr(fa).Name() == "children" {
+						if pt, ok := fa.Type().Underlying().(*types.Pointer); ok {
+							if at, ok := pt.Elem().Underlying().(*types.Array); ok {
+								arrLen = at.Len()
+							}
+						}
+					}
+					if _, f := core.FieldLoad(ia.X); f != nil && f.Name() == "EncodedChildren" {
+						slices = append(slices, ia.X)
+					}
+				}
+			}
+			if arrLen < 0 && len(slices) == 0 {
+				continue
+			}
+			k++
+			n++
+			c.Analysed(fname(fn))
+			ok, why := false, ""
+			if kc, isC := core.ConstInt(bound.Y); isC {
+				want := arrLen
+				if want < 0 {
+					want = 17
+					if cst := c.P.Const(pkg, "nrOfChildren"); cst != nil {
+						if v, okv := constInt64(cst); okv {
+							want = v
+						}
+					}
+				}
+				ok = kc >= want
+				why = fmt.Sprintf("the loop stops at %d while a branch node has %d child slots", kc, want)
+			} else if call, isCall := bound.Y.(*ssa.Call); isCall {
+				if bi, isB := call.Call.Value.(*ssa.Builtin); isB && bi.Name() == "len" {
+					ok = true // ranges over the collection itself
+				}
+			} else {
+				why = "the loop bound is not the number of child slots"
+			}
+			c.Check(ok, "C02/child-scans-cover-all-slots", fmt.Sprintf("%s/loop#%d", fname(fn), k), bound.Pos(),
+				"the scan over the children runs over all slots",
+				why+": the last slot (the key that ends at this branch) is never looked at, so a delete can reduce a branch that still holds that key, or leave a non-canonical single-child branch whose hash depends on history")
+		}
+	}
+	c.Floor("C02/child-scans-cover-all-slots", 10)
 }
